@@ -16,6 +16,7 @@ pub mod c12;
 pub mod c13;
 pub mod c14;
 pub mod c15;
+pub mod c16;
 
 pub fn get(id: &str) -> Option<PropertyDef> {
     match id {
@@ -34,6 +35,7 @@ pub fn get(id: &str) -> Option<PropertyDef> {
         "C13" => Some(c13::def()),
         "C14" => Some(c14::def()),
         "C15" => Some(c15::def()),
+        "C16" => Some(c16::def()),
         _ => None,
     }
 }
